@@ -196,3 +196,15 @@ mod tests {
     //use super::*;
 
 }
+
+#[cfg(feature = "verif")]
+impl<SlotType:          Debug + Send + Sync,
+     OgreAllocatorType: BoundedOgreAllocator<SlotType> + crate::verif::VerifState,
+     const BUFFER_SIZE: usize>
+crate::verif::VerifState for
+FullSyncZeroCopy<SlotType, OgreAllocatorType, BUFFER_SIZE> {
+    fn verif_state(&self, out: &mut Vec<u64>) {
+        self.allocator.verif_state(out);
+        self.queue.verif_state(out);
+    }
+}
